@@ -551,9 +551,23 @@ pub fn gen_case(rng: &mut Rng, tier: Tier, for_sweep: bool) -> Case13 {
             ref_kind = "external-relative".into();
         }
         10 => {
-            fs.nodes.insert("/maps/abs.map".into(), FsNode::Text(valid_map.clone()));
+            // an absolute reference: readable, missing (a root-relative URL of a bundler's public path), or denied
+            match rng.below(3) {
+                0 => {
+                    fs.nodes.insert("/maps/abs.map".into(), FsNode::Text(valid_map.clone()));
+                    ref_kind = "external-absolute".into();
+                }
+                1 => {
+                    // the same path exists below an ancestor folder of the file, not at the root
+                    fs.nodes.insert(join(&dir, "maps/abs.map"), FsNode::Text(valid_map.clone()));
+                    ref_kind = "external-absolute-missing".into();
+                }
+                _ => {
+                    fs.nodes.insert("/maps/abs.map".into(), FsNode::Denied);
+                    ref_kind = "external-absolute-denied".into();
+                }
+            }
             source.push_str("\n//# sourceMappingURL=/maps/abs.map\n");
-            ref_kind = "external-absolute".into();
         }
         11 | 12 => {
             let (body, label) = if rng.chance(2, 3) { mutate_map(rng, &valid_map) } else { raw_bodies(rng, &valid_map) };
